@@ -139,6 +139,13 @@ pub fn generate(seed: u64, class: &str) -> Scenario {
     // "pool": steady state; all threads keep compiling the same few texts through the
     // default runtime at the same time (anything keyed by expression text is contended).
     let pool = class == "pool";
+    // "deep": several threads sit deep inside nested function calls (and nested sort_by /
+    // map with expression references) at the same time: anything that counts, pools or
+    // locks per call is under pressure from all of them at once.
+    let deep = class == "deep";
+    // "hot": the same few functions are called well over a thousand times, from all
+    // threads: state that only wakes up after N calls (statistics, inline caches) wakes up.
+    let hot = class == "hot";
     let mut r = Rng::new(seed);
     let mut base = small_doc(&mut r);
     if r.chance(1, 2) {
@@ -150,12 +157,13 @@ pub fn generate(seed: u64, class: &str) -> Scenario {
         }
     }
     let ndocs = 2 + r.below(2);
+    #[allow(unused_assignments)]
     let mut docs = vec![base.to_json()];
     for _ in 1..ndocs {
         docs.push(base.mutated(&mut r).to_json());
     }
     let npre = 1 + r.below(2);
-    let touch_default_first = if race || late { false } else if pool { true } else { r.chance(1, 2) };
+    let touch_default_first = if race || late { false } else if pool || deep || hot { true } else { r.chance(1, 2) };
     let mut pre = vec![];
     for _ in 0..npre {
         // without a prior touch, pre-compiled expressions must come from the custom runtime,
@@ -163,7 +171,23 @@ pub fn generate(seed: u64, class: &str) -> Scenario {
         let custom = if touch_default_first { r.chance(1, 3) } else { true };
         pre.push((custom, gen_text(&mut r, &base, custom)));
     }
-    let nthreads = if pool { 3 + r.below(2) } else { 2 + r.below(3) };
+    if hot {
+        // rows: 280 small number arrays -> one map(&min(@), rows) is 280 calls of min
+        let rows: Vec<J> = (0..280).map(|i| J::Arr(vec![J::Int(9 - (i % 7)), J::Int(1 + (i % 5)), J::Int(4)])).collect();
+        docs = vec![J::Obj(vec![("rows".into(), J::Arr(rows))]).to_json()];
+    }
+    if deep {
+        let groups: Vec<J> = (0..3)
+            .map(|g| {
+                J::Obj(vec![(
+                    "items".into(),
+                    J::Arr((0..3).map(|i| J::Obj(vec![("v".into(), J::Int(((g * 7 + i * 5) % 11) as i64))])).collect()),
+                )])
+            })
+            .collect();
+        docs = vec![J::Obj(vec![("groups".into(), J::Arr(groups)), ("a".into(), J::Arr(vec![J::Int(-3), J::Int(2)]))]).to_json()];
+    }
+    let nthreads = if pool { 3 + r.below(2) } else if deep { 5 } else if hot { 4 } else { 2 + r.below(3) };
     let pool_texts: Vec<String> = (0..3).map(|_| gen_text(&mut r, &base, false)).collect();
     let mut threads = vec![];
     for t in 0..nthreads {
@@ -184,13 +208,38 @@ pub fn generate(seed: u64, class: &str) -> Scenario {
             let d = r.below(docs.len());
             ops.push(Op::CompileSearch { text: gen_text(&mut r, &base, false), d });
         }
+        if deep {
+            let mut nest = String::from("a[0]");
+            for _ in 0..22 {
+                nest = format!("{}({})", r.pick(&["abs", "not_null", "to_array", "abs", "abs"]), nest);
+                if nest.starts_with("to_array") {
+                    nest = format!("{}[0]", nest);
+                }
+            }
+            for k in 0..3 {
+                let _ = t;
+                // every thread starts inside the nested sort_by at the same time
+                let text = if k % 2 == 0 {
+                    "sort_by(groups, &sort_by(items, &v)[0].v)[*].items[0].v".to_string()
+                } else {
+                    nest.clone()
+                };
+                ops.push(Op::CompileSearch { text, d: 0 });
+            }
+        }
+        if hot {
+            for k in 0..4 {
+                let f = if (k + t) % 2 == 0 { "min" } else { "max" };
+                ops.push(Op::CompileSearch { text: format!("map(&{}(@), rows) | [0]", f), d: 0 });
+            }
+        }
         if pool {
             for _ in 0..(10 + r.below(6)) {
                 let d = r.below(docs.len());
                 ops.push(Op::CompileSearch { text: r.pick(&pool_texts).clone(), d });
             }
         }
-        for _ in ops.len()..nops {
+        for _ in ops.len()..(if deep || hot { 0 } else { nops }) {
             let d = r.below(docs.len());
             let e = r.below(pre.len());
             ops.push(match r.below(10) {
@@ -347,7 +396,7 @@ pub fn main() {
     if let Some(n) = arg(&args, "--batch").and_then(|x| x.parse::<u64>().ok()) {
         // native pre-pass over many scenarios: seq vs serial-threads, one line each
         for i in index..index + n {
-            let sc = generate(mix(seed, i), ["race", "general", "pool", "late"][(i % 4) as usize]);
+            let sc = generate(mix(seed, i), ["race", "general", "pool", "late", "general", "deep"][(i % 6) as usize]);
             let a = exec(&sc, "seq", false).0;
             let b = exec(&sc, "serial", false).0;
             println!("B {} {:016x} {:016x}", i, a, b);
